@@ -358,6 +358,10 @@ def check_sink_positions(s0: int, s1: int, s2: int, t0: int, t1: int, op: int) -
     if op == 2:                               # object call: operands at positions 0 (receiver), 2, 3 (arguments 0 and 1)
         present = [present[0], 0, present[1], present[2]]
         tainted = [tainted[0], 0, tainted[1], tainted[2]]
+    base = int(SLICE.get("base", 0))          # the three symbolic operands sit at positions base..base+2 (arguments base-1..base+1)
+    if base:
+        present = [0] * base + present
+        tainted = [0] * base + tainted
     got, want = run_sink(present, tainted, targets, "field_write" if op == 1 else "call_stmt", object_call=(op == 2),
                          scope=scope, split=split)
     if got != want:
